@@ -1,0 +1,62 @@
+//go:build verif
+
+// Export shim for the external verification harness (/verif, property C33). Compiled only with
+// the build tag `verif`. Wrappers around the unexported pending-request getters that the
+// Approve* methods themselves use; no contract logic lives here.
+
+package neo3_state_manager
+
+import "github.com/polynetwork/poly/native"
+
+// VerifStateValidatorApplyPending returns the key list of pending register request id (ok=false if none).
+func VerifStateValidatorApplyPending(native *native.NativeService, id uint64) ([]string, bool) {
+	p, err := getStateValidatorApply(native, id)
+	if err != nil || p == nil {
+		return nil, false
+	}
+	return p.StateValidators, true
+}
+
+// VerifStateValidatorRemovePending returns the key list of pending remove request id (ok=false if none).
+func VerifStateValidatorRemovePending(native *native.NativeService, id uint64) ([]string, bool) {
+	p, err := getStateValidatorRemove(native, id)
+	if err != nil || p == nil {
+		return nil, false
+	}
+	return p.StateValidators, true
+}
+
+// ---- property C17 part B (storage-key injectivity): thin wrappers of the unexported put/get helpers,
+// used as black-box key constructors. No logic.
+
+func VerifPutStateValidators(native *native.NativeService, svs []string) error {
+	return putStateValidators(native, svs)
+}
+
+func VerifGetStateValidators(native *native.NativeService) ([]byte, error) {
+	return getStateValidators(native)
+}
+
+func VerifPutStateValidatorApply(native *native.NativeService, p *StateValidatorListParam) error {
+	return putStateValidatorApply(native, p)
+}
+
+func VerifPutStateValidatorRemove(native *native.NativeService, p *StateValidatorListParam) error {
+	return putStateValidatorRemove(native, p)
+}
+
+func VerifPutStateValidatorApplyID(native *native.NativeService, id uint64) error {
+	return putStateValidatorApplyID(native, id)
+}
+
+func VerifPutStateValidatorRemoveID(native *native.NativeService, id uint64) error {
+	return putStateValidatorRemoveID(native, id)
+}
+
+func VerifGetStateValidatorApplyID(native *native.NativeService) (uint64, error) {
+	return getStateValidatorApplyID(native)
+}
+
+func VerifGetStateValidatorRemoveID(native *native.NativeService) (uint64, error) {
+	return getStateValidatorRemoveID(native)
+}
